@@ -8,9 +8,8 @@
    The buffer is kept REVERSED (head = last byte written) because the code
    inspects and pops the end of the buffer.
 
-   Not modelled: `@function` items (css/function.rs), placeholder removal
-   (`no_placeholder`, selectors here have no placeholders), and the panic of
-   Format::get_indent beyond 80 columns (nesting depth 40; that is C01). *)
+   Not modelled: `@function` items (css/function.rs) and placeholder removal
+   (`no_placeholder`, selectors here have no placeholders). *)
 From Coq Require Import List NArith Bool Arith.
 From RV Require Import Base.Text.
 Import ListNotations.
@@ -57,12 +56,14 @@ Definition head_is (c : N) (b : buf) : bool := match b with x :: _ => x =? c | [
 Definition pop_if (c : N) (b : buf) : buf := if head_is c b then tl b else b.
 Definition pop_nl (b : buf) : buf := pop_if 10 b.
 Definition spaces (n : nat) : bytes := repeat 32 n.
-(* Format::get_indent: newline + len spaces, nothing when compressed *)
+(* Format::get_indent: newline + len spaces, capped at the 80 spaces of the static
+   INDENT string (commit f9a5d45); nothing when compressed *)
+Definition indent_cap : nat := 80.
 Definition get_indent (s : style) (len : nat) : bytes :=
-  if is_compressed s then [] else 10 :: spaces len.
+  if is_compressed s then [] else 10 :: spaces (Nat.min len indent_cap).
 Definition do_indent (s : style) (ind : nat) (b : buf) : buf := add (get_indent s ind) b.
 Definition do_indent_no_nl (s : style) (ind : nat) (b : buf) : buf :=
-  if is_compressed s then b else add (spaces ind) b.
+  if is_compressed s then b else add (spaces (Nat.min ind indent_cap)) b.
 Definition start_block (s : style) (b : buf) : buf := add_one s [32;123;10] [123] b.
 (* `ind` is the indent OUTSIDE the block (the code decrements before using it) *)
 Definition end_block (s : style) (ind : nat) (b : buf) : buf :=
